@@ -29,6 +29,7 @@ type Contract struct {
 	Kind       string // func loop closure lemma trusted spec
 	Params     []string
 	Requires   []*Clause
+	Relies     []*Clause // goroutine bodies: facts about shared state that every goroutine preserves (assumed at entry and after interference, proved at every exit)
 	Ensures    []*Clause
 	Invariants []*Clause
 	Decreases  *Clause
@@ -49,7 +50,13 @@ type Contract struct {
 	Subjects   []string    // streams: names of the subjects (bound to the producer's YieldsArgs)
 	Records    []*GhostSet // streams: ghost variables updated at every yield (mirrored at the consumer's next/range)
 	Stops      string      // streams: ghost Bool that becomes !ret after every yield
+	Tracks     []string    // streams: ghost variables reset when a producer starts and then updated only by the producer's own ghost code
 	RetProto   string // the protocol the returned function value must obey (closures implementing a factory protocol)
+	ParamSubj  map[string][]string // "param X follows S(a, b)": names for the subjects of the stream value X
+	SubjTypes  []string            // streams: declared Go types of the subjects ("" = any)
+	Afters     []*AfterHook        // ghost updates performed after calls in the body of this function / closure
+	Carries    map[string]*CarryDecl // "carries x: P(a, b)": the channel variable / parameter / resultN x carries protocol P
+	RefineMap  map[string]map[string]string // streams: refined stream -> (its ghost variable -> the corresponding one of this stream)
 	Implements string // closures: the protocol this function literal implements
 	ImplInst   string // type instance for $T in that protocol
 }
@@ -67,6 +74,24 @@ type GhostSet struct {
 	Var  string
 	Text string
 	Expr *CExpr
+}
+
+// AfterHook is "after callee: G := expr": ghost code attached to every call, in the body of the function under
+// contract (not in inlined callees), whose callee is named callee (identifier, or the selected method/function name).
+// expr is evaluated right after the call returns; result / result0.. name the call's results, the function's locals
+// are visible, and G's own current value may be used.
+type AfterHook struct {
+	Callee string
+	Var    string
+	Text   string
+	Expr   *CExpr
+}
+
+// CarryDecl: a channel (named by the variable, parameter or resultN that holds it) carries a channel protocol.
+type CarryDecl struct {
+	Proto string
+	Args  []*CExpr
+	Text  string
 }
 
 // MethodVal: a method value x.M of a trusted external method obeys a protocol; Bind relates self (the function value) and recv.
@@ -130,7 +155,7 @@ var clauseKW = map[string]bool{
 	"requires": true, "ensures": true, "invariant": true, "modifies": true, "decreases": true,
 	"helper": true, "inline": true, "pure": true, "nowf": true, "use": true, "protocol": true,
 	"yields": true, "param": true, "contract": true, "applies": true, "opaque": true, "entry": true, "spec": true,
-	"terminal": true, "allocates": true, "pred": true, "trigger": true, "assumed": true, "partial": true, "stream": true, "resumes": true, "refines": true, "field": true, "implements": true, "tag": true, "ghostset": true, "records": true, "stops": true, "subject": true, "methodvalue": true, "logic": true, "axiom": true, "nilrecv": true, "verify": true,
+	"terminal": true, "allocates": true, "pred": true, "trigger": true, "assumed": true, "partial": true, "stream": true, "resumes": true, "refines": true, "field": true, "implements": true, "tag": true, "ghostset": true, "records": true, "stops": true, "subject": true, "methodvalue": true, "logic": true, "axiom": true, "nilrecv": true, "verify": true, "after": true, "tracks": true, "channel": true, "carries": true, "rely": true,
 }
 
 var labelRe = regexp.MustCompile(`^([A-Za-z_][\w']*)\s*(\[[A-Za-z0-9, ]*\])?\s*:`)
@@ -312,15 +337,79 @@ func (cs *ContractSet) ParseContractLines(file string, lines []string, poss []st
 				}
 				cur.Records = append(cur.Records, &GhostSet{Var: strings.TrimSpace(parts[0]), Text: strings.TrimSpace(parts[1]), Expr: e})
 			}
+		case "after":
+			// after callee: G := expr
+			if cur != nil {
+				m := regexp.MustCompile(`^([\w.]+)\s*:\s*(\w+)\s*:=\s*(.*)$`).FindStringSubmatch(it.rest)
+				if m == nil {
+					cs.Errors = append(cs.Errors, fmt.Sprintf("%s: bad after clause %q", it.pos, it.rest))
+					continue
+				}
+				e, err := ParseCExpr(strings.TrimSpace(m[3]))
+				if err != nil {
+					cs.Errors = append(cs.Errors, fmt.Sprintf("%s: %v", it.pos, err))
+					continue
+				}
+				cur.Afters = append(cur.Afters, &AfterHook{Callee: m[1], Var: m[2], Text: strings.TrimSpace(m[3]), Expr: e})
+			}
+		case "channel":
+			// channel name(v): what may be sent on a channel (requires), with optional subjects
+			inGlobal = false
+			curProto = nil
+			cur = newContract("channel", it.rest, it.pos)
+			delete(cs.ByKey, cur.Key)
+			cur.Key = "chan." + cur.Key
+			cs.ByKey[cur.Key] = cur
+		case "carries":
+			// carries x: P   or   carries x: P(e1, e2)
+			if cur != nil {
+				nm, rest, ok := strings.Cut(it.rest, ":")
+				if !ok {
+					cs.Errors = append(cs.Errors, fmt.Sprintf("%s: bad carries clause %q", it.pos, it.rest))
+					continue
+				}
+				cd := &CarryDecl{Text: strings.TrimSpace(rest)}
+				r := strings.TrimSpace(rest)
+				if i := strings.Index(r, "("); i > 0 && strings.HasSuffix(r, ")") {
+					for _, m := range splitTop(r[i+1 : len(r)-1]) {
+						if strings.TrimSpace(m) == "" {
+							continue
+						}
+						e, err := ParseCExpr(strings.TrimSpace(m))
+						if err != nil {
+							cs.Errors = append(cs.Errors, fmt.Sprintf("%s: %v", it.pos, err))
+							continue
+						}
+						cd.Args = append(cd.Args, e)
+					}
+					r = strings.TrimSpace(r[:i])
+				}
+				cd.Proto = r
+				if cur.Carries == nil {
+					cur.Carries = map[string]*CarryDecl{}
+				}
+				cur.Carries[strings.TrimSpace(nm)] = cd
+			}
+		case "tracks":
+			if cur != nil {
+				for _, f := range strings.Split(it.rest, ",") {
+					if f = strings.TrimSpace(f); f != "" {
+						cur.Tracks = append(cur.Tracks, f)
+					}
+				}
+			}
 		case "stops":
 			if cur != nil {
 				cur.Stops = strings.TrimSpace(it.rest)
 			}
 		case "subject":
 			if cur != nil {
+				// subject g *defaultGrowerSimple, w   (the type is optional)
 				for _, f := range strings.Split(it.rest, ",") {
 					if f = strings.TrimSpace(f); f != "" {
-						cur.Subjects = append(cur.Subjects, f)
+						nm, ty, _ := strings.Cut(f, " ")
+						cur.Subjects = append(cur.Subjects, nm)
+						cur.SubjTypes = append(cur.SubjTypes, strings.TrimSpace(ty))
 					}
 				}
 			}
@@ -336,8 +425,20 @@ func (cs *ContractSet) ParseContractLines(file string, lines []string, poss []st
 				}
 			}
 		case "refines":
+			// refines G [with gA=rA, gB=rB]
 			if cur != nil {
-				cur.Flags["refines:"+strings.TrimSpace(it.rest)] = true
+				name, with, _ := strings.Cut(it.rest, " with ")
+				name = strings.TrimSpace(name)
+				cur.Flags["refines:"+name] = true
+				if cur.RefineMap == nil {
+					cur.RefineMap = map[string]map[string]string{}
+				}
+				cur.RefineMap[name] = map[string]string{}
+				for _, pr := range strings.Split(with, ",") {
+					if a, b, ok := strings.Cut(strings.TrimSpace(pr), "="); ok {
+						cur.RefineMap[name][strings.TrimSpace(a)] = strings.TrimSpace(b)
+					}
+				}
 			}
 		case "resumes":
 			if cur == nil {
@@ -403,6 +504,12 @@ func (cs *ContractSet) ParseContractLines(file string, lines []string, poss []st
 		case "terminal":
 			if curProto != nil {
 				curProto.Term = addClause("terminal", it.rest, it.pos)
+			}
+		case "rely":
+			if cur != nil {
+				if c := addClause("rely", it.rest, it.pos); c != nil {
+					cur.Relies = append(cur.Relies, c)
+				}
 			}
 		case "requires", "ensures", "invariant", "decreases":
 			if inGlobal && it.kw == "invariant" {
@@ -507,10 +614,27 @@ func (cs *ContractSet) ParseContractLines(file string, lines []string, poss []st
 				cur.Yields = r
 			}
 		case "param":
-			// param rootIter follows rootStream
-			f := strings.Fields(it.rest)
+			// param rootIter follows rootStream      or      param rootIter follows grownStream(g)
+			rest := it.rest
+			var subj []string
+			if i := strings.Index(rest, "("); i > 0 && strings.HasSuffix(strings.TrimSpace(rest), ")") {
+				r := strings.TrimSpace(rest)
+				for _, s := range strings.Split(r[i+1:len(r)-1], ",") {
+					if s = strings.TrimSpace(s); s != "" {
+						subj = append(subj, s)
+					}
+				}
+				rest = r[:i]
+			}
+			f := strings.Fields(rest)
 			if cur != nil && len(f) == 3 && f[1] == "follows" {
 				cur.ParamProto[f[0]] = f[2]
+				if len(subj) > 0 {
+					if cur.ParamSubj == nil {
+						cur.ParamSubj = map[string][]string{}
+					}
+					cur.ParamSubj[f[0]] = subj
+				}
 			}
 		case "applies":
 			// applies <contract> to f, g
@@ -539,11 +663,14 @@ func (cs *ContractSet) ResolveApplies() {
 				continue
 			}
 			c := *shared
-			if i := strings.Index(fk, "["); i >= 0 && strings.HasSuffix(fk, "]") {
-				c = *instantiateContract(shared, fk[i+1:len(fk)-1], cs)
+			if i, j := strings.Index(fk, "["), strings.Index(fk, "]"); i >= 0 && j > i {
+				c = *instantiateContract(shared, fk[i+1:j], cs)
 			}
 			c.Key = fk
 			c.Kind = "func"
+			if strings.Contains(fk, "#") {
+				c.Kind = "closure"
+			}
 			c.Flags = map[string]bool{}
 			for k, v := range shared.Flags {
 				c.Flags[k] = v
